@@ -107,6 +107,8 @@ def main(tier):
                 Zs_, Ls_ = np.meshgrid([13, 29, 47, 56, 79, 82, 92], [0, 1, 2, 3, -91, -207], indexing='ij')
                 args = [Zs_.ravel(), Ls_.ravel()] + ([np.full(Zs_.size, 17.44)] if f['sig'] == 'iid' else [])
                 extra.append(libs[cfg].build(name, *args)[0])
+        legacy = np.zeros(6, execlib.REQ); legacy['fn'] = np.arange(2010, 2016); legacy['s'] = -1      # XRayInit + the five deprecated switches (thrmon ids)
+        extra.append(legacy)
         ncorner = sum(len(e) for e in extra)
         Q = np.concatenate([Q] + extra)
         corner[cfg] = np.arange(len(Q) - ncorner, len(Q))
@@ -119,13 +121,19 @@ def main(tier):
         queries[cfg] = (Q, S)
         # external references for the cold-start runs, one per process locale (messages of the parser quote bytes >= 0x80 as the locale's
         # character classes dictate: an input of the call, not a matter of threads)
-        refs[cfg] = libs[cfg].run(Q, S)
-        refs[(cfg, 1)] = execlib.Lib(cfg, env=dict(LOCPATH=locdir, LC_ALL='xx_VERIF', XV_SETLOCALE='1')).run(Q, S)
+        def ref_run(lib_):
+            known = Q['fn'] < 2010
+            rr = lib_.run(Q[known], S)
+            raw = np.zeros(len(Q), execlib.RESP); raw['msg'] = -1; raw[known] = rr.raw
+            return execlib.Res(raw, rr.msgs)
+        refs[cfg] = ref_run(libs[cfg])
+        refs[(cfg, 1)] = ref_run(execlib.Lib(cfg, env=dict(LOCPATH=locdir, LC_ALL='xx_VERIF', XV_SETLOCALE='1')))
         refs[(cfg, 0)] = refs[cfg]
         for fl in ('tsan', 'plain'):
             mons[(cfg, fl)] = build.harness(cfg, fl, 'thrmon')
     fnname = {f['id']: n for n, f in libs['shipped'].fns.items()}
     fnname.update({v: k for k, v in execlib.SPECIAL_ID.items()})
+    fnname.update({2010: 'XRayInit', 2011: 'SetHardExit', 2012: 'SetExitStatus', 2013: 'GetExitStatus', 2014: 'SetErrorMessages', 2015: 'GetErrorMessages'})
 
     def go(job):
         i, (cfg, fl, th, calls, yld, loc) = job
